@@ -25,18 +25,22 @@ func newTokens(capacity uint) *tokens_t {
 
 func (t *tokens_t) get() {
 	atomic.AddInt64(&t.clients, 1)
+	vhook("tok.get.inc", atomic.LoadInt64(&t.clients), len(t.ch))
 
 	if t.capacity != 0 {
 		t.ch <- struct{}{}
 	}
+	vhook("tok.get", atomic.LoadInt64(&t.clients), len(t.ch))
 }
 
 func (t *tokens_t) ret() {
 	atomic.AddInt64(&t.clients, -1)
+	vhook("tok.ret.dec", atomic.LoadInt64(&t.clients), len(t.ch))
 
 	if t.capacity != 0 {
 		<-t.ch
 	}
+	vhook("tok.ret", atomic.LoadInt64(&t.clients), len(t.ch))
 }
 
 func (t tokens_t) count() int64 {
